@@ -28,11 +28,11 @@ CLAIMED = {
         technique=T_GENERIC),
     "C04": dict(engine="online", ref="6/C04",
         text="Lean theorems over Model.Online.runFinal (begin_transaction decision tree, _ProxyTransaction.__exit__, per-step block of run_migrations, autocommit_block) for every plan length, every failing migration and every failure position, all (transactional_ddl, transaction_per_migration, external) settings: single_txn, per_migration, recorded_exactly_completed, nontransactional, rows_at_boundary, never_names_failed. Compared with the real MigrationContext on SQLite file databases (pysqlite default and the BEGIN recipe) with exhaustive failure positions; the Lean checker judges the post-failure observation of the real code.",
-        note="backend DDL modes are a model (pysqlite legacy and SQLite BEGIN recipe validated live; PostgreSQL/MSSQL/MySQL servers not); single_txn/per_migration carry the hypothesis 'no autocommit_block before the failure'; version statements are parameters read from the real HeadMaintainer (row algebra is C03).",
+        note="backend DDL modes are a model (pysqlite legacy and SQLite BEGIN recipe validated live; PostgreSQL/MSSQL/MySQL servers not); single_txn/per_migration carry the hypothesis 'no autocommit_block before the failure'; version statements are parameters read from the real HeadMaintainer (row algebra is C03); migration bodies may contain op.batch_alter_table blocks; an offline (--sql) stream injects the same failures, reports a failure the command swallowed and applies the script emitted up to the failure to a copy of the start database, judged by the same Spec.Online.check (no Lean model run for offline cases: framing is C18's).",
         technique=T_GENERIC),
     "C05": dict(engine="rev", ref="6/C05",
         text="C05.single: from rows that form an antichain, stamping a revision d replaces exactly the rows in d's lineage (ancestors or descendants through down-revisions and dependencies, selected as filter_for_lineage(include_dependencies=True) does) by d, leaves every other row untouched, every statement hits exactly one row, and the result is again an antichain - for every loaded history and all four classifications (no-op / downgrade / upgrade / new branch) of _stamp_revs with the StampStep decision logic; C05.base: stamping base deletes the selected rows one by one and ends empty. Several destinations ('heads', several ids; repaired in /repo by the F4 fix) are covered by correspondence with the real _stamp_revs + HeadMaintainer on SQLite and the Lean oracle stampOk. Also C05.several (the loop of _stamp_revs over pairwise unrelated destinations, the repaired F4/F15), stamp_one, stamp_several, stamp_heads (+ stamp_heads_history: exactly the revisions no file names as a prerequisite), stamp_base, lineage_history, stampOk_sound.",
-        note="stamp_one / stamp_several / stamp_heads / stamp_base are end-to-end about command.stamp for destinations written as full ids, 'heads', 'base'; label / partial-id destinations and --purge are compared (in-process and through the shipped env.py on a SQLite file) and judged by the oracle stampOk, whose verdict is given its meaning by stampOk_sound; destinations that share a lineage or name one revision twice are outside the formula.",
+        note="stamp_one / stamp_several / stamp_heads / stamp_base are end-to-end about command.stamp for destinations written as full ids, 'heads', 'base' and (C05.stamp_branch_head) `<label or id>@head` with one head on the branch; bare label / partial-id / label@heads destinations and --purge are compared (in-process and through the shipped env.py on a SQLite file) and judged by the oracle stampOk, whose verdict is given its meaning by stampOk_sound; destinations that share a lineage or name one revision twice are outside the formula.",
         technique=T_GENERIC),
     "C06": dict(engine="diff", ref="6/C06",
         text="quiet_partial and converge_partial kernel-checked for all well-formed schemas of the property's class (any size, arbitrary type arguments and default texts) under every compare_type/compare_server_default setting, with the SchemaOk hypothesis (plain defaults, types that reflect by name); the F9 family, affinity-reflected types and two batch defects are Lean counterexamples + known findings replayed on the real code. The property itself (quiet, converge through rendered code executed on SQLite) is observed on the real code on every run.",
@@ -48,11 +48,11 @@ CLAIMED = {
         technique=T_GENERIC),
     "C09": dict(engine="filter", ref="6/C09",
         text="reverse_order proved for every op tree (mutual structural induction over nested ModifyTableOps); involution and undo proved in _partial form (clean / accurate ops) next to three kernel-checked counterexamples (F11 modify_name, F13 if_exists directives, F14 deferrable=False) recorded as known findings; model compared with op.reverse()/reverse().reverse() of the real ops, SQL on five dialects, and upgrade-then-downgrade executed on SQLite.",
-        note="abstract schema semantics of ops is mine (validated by SQLite execution only); canonicalisation through to_table/to_index/to_constraint.",
+        note="abstract schema semantics of ops is mine (validated by SQLite execution only); canonicalisation through to_table/to_index/to_constraint; C09.reverse_shape (the reverse has the inverse kind, names the same object and, for a constraint, carries the same constraint type) is evaluated as Spec.Reverse.undoesShape on the implementation's own reverse(); DDL undo oracle: where a create-like op emits offline on a dialect its reverse must too.",
         technique=T_GENERIC),
     "C10": dict(engine="batch", ref="6/C10",
         text="Lean theorems over the ApplyBatchImpl mirror: rows, rowcount, no_tmp, values (every untouched column keeps its cell values), order_perm/order_respects (column ordering is a permutation and a linear extension), kept_indexes, for every table, row list and op sequence; constraint carry-over is decided by correspondence on real SQLite + the Lean checker check10. Two counterexample theorems (C10-F1, C10-F2) are known findings.",
-        note="abstract SQLite semantics (CAST table computed by the harness from live SQLite); SQLAlchemy reflection/copy; C10.schema for untouched named constraints/FK/PK is checked by correspondence and the spec checker, not proved.",
+        note="abstract SQLite semantics (CAST table computed by the harness from live SQLite; Spec.Batch.allowedValues demands the CAST result, storage class included, when a retype crosses type families); SQLAlchemy reflection/copy; C10.schema for untouched named constraints/FK/PK is checked by correspondence and the spec checker, not proved.",
         technique=T_GENERIC),
     "C11": dict(engine="batch", ref="6/C11",
         text="Lean theorems over _create's try/except/else on an abstract pysqlite connection for every plan, every fault index and both ways the enclosing scope can end: early_orig_intact, retrievable, late, superset, success_no_tmp; 'temp table gone after an early failure' only as _partial next to two kernel-checked counterexamples (C11-F1, C11-F2: known findings). Fault injection at every statement on real SQLite.",
@@ -64,7 +64,7 @@ CLAIMED = {
         technique=T_GENERIC),
     "C13": dict(engine="alter", ref="6/C13",
         text="exact_<dialect> for default, sqlite, postgresql, mysql, mariadb, mssql, oracle: for every request (all presence patterns, values universally quantified) with plain/None defaults and every initial column agreeing with the stated existing_* values, the emitted statements set each requested attribute and keep every other one unless restated-and-unstated; computed/identity raise theorems; schema_partial. Exhaustive presence-pattern correspondence (28 672 patterns) against real as_sql output. Three counterexamples are known findings (Oracle comment schema, PG identity, constraint after rename).",
-        note="applyStmt encodes documented vendor semantics for mysql/mssql/postgresql/oracle (no live servers); per-dialect statement parsers trusted; identifiers in the pools need no quoting (quoting is C14).",
+        note="applyStmt encodes documented vendor semantics for mysql/mssql/postgresql/oracle (no live servers); per-dialect statement parsers trusted (they un-quote delimited identifiers and read inside the T-SQL literals of the MSSQL drop-default batch: Stmt.mssqlDropDefault carries the table its object_id literal denotes and the column string); quoting-class column names are run as a names battery; quoting as such is C14.",
         technique=T_GENERIC),
     "C14": dict(engine="ident", ref="6/C14",
         text="Lexer round trip of delimiters and quote doubling for every dialect and every name (delimit_roundtrip, literal_roundtrip), needs_quotes, and per-construct token-shape theorems for 12 construct families x dialects with names universally quantified; F6/F7 (and PERCENT/TAB outside the listed classes) as counterexample + partial theorems and known findings. Real compiled strings compared exactly with the model on 6 dialects; the Lean lexer-based spec judges the implementation's strings.",
@@ -76,19 +76,19 @@ CLAIMED = {
         technique=T_GENERIC),
     "C16": dict(engine="rev", ref="6/C16",
         text="full_id (a full revision id resolves to that revision), plain_sound (a plain identifier resolves to a revision only if it is a key of the map for it - its id or a label it carries - or a prefix of its id and of no other id of >=4 characters), prefix_unique_partial (the documented unique-prefix rule when all ids have >=4 characters) next to the kernel-checked counterexample for shorter ids (known finding F13), symbolic_heads/base; the label-prefix defect F10 is repaired in /repo. Every prefix of every id and label, every label@x combination and offsets up to 3 are resolved through the real RevisionMap and compared with the model; relative and branch-qualified results are judged by Lean oracles (exact distance, branch membership, documented meaning of head/heads/base). Also walk_up_exact / walk_down_exact and walk_up_history / walk_down_history (a relative walk that returns a revision returns one exactly N down_revision links, as written in the files, away), stepsDown_iff, load_ids_legal.",
-        note="where +N / label@+N starts counting (Spec.Rev.relUpStarts) and the regex that splits label@sym+-N are compared and judged by oracles only; get_revisions('-N') is modelled for the plain ASCII spelling of the number.",
+        note="relative and branch-qualified targets end to end: C16.rel_up_id / rel_up_row / rel_down_id / rel_dgrade_id / rel_dgrade_row (rev+N, +N from the single row, rev-N, bare -N: exactly N down_revision links as written in the files, base only at distance N-1 from a root, -N restricted to the row's branch) and C16.branch_head (<label or id>@head = the single head sharing the branch's lineage; several are refused) for every target the pattern model matchRelative splits that way; label@+N / label@-N (start at the branch tip: Spec.Rev.relUpStarts), +N with several rows and the regular expression itself are compared and judged by oracles only; get_revisions('-N') is modelled for the plain ASCII spelling of the number.",
         technique=T_GENERIC),
     "C17": dict(engine="gen", ref="6/C17",
         text="repr_roundtrip / repr_file (the four identifier assignments of script.py.mako decode to the requested values for ALL strings and tuples), incremental (for every well-formed history that loads and every accepted new revision, add_revision succeeds, the extended history loads, and the incrementally updated map equals the reloaded map in the FULL view incl. branch labels - the label defect F5 is repaired in /repo), filename_suffix/accepted; counterexamples for the unescaped docstring (F12) and a '.#' id are kernel-checked and recorded. After every real generate_revision/command.revision/command.merge call the incremental ScriptDirectory is compared with a fresh one and with the model.",
-        note="Mako substitution is literal; Python tokenizer/importer and filesystem exercised live; \\w and str.lower() are parameters; version_path / file_template handling is covered by correspondence.",
+        note="Mako substitution is literal; Python tokenizer/importer and filesystem exercised live; \\w and str.lower() are parameters; version_path / file_template handling is covered by correspondence; whether the rendered text fits the configured output_encoding is a parameter (GenArgs.encodable, computed with str.encode) - C17.generate_refuses_unencodable: such a call is refused before anything is written; sourceless directories are also run with the byte code Python caches next to the sources.",
         technique=T_GENERIC),
     "C18": dict(engine="txn", ref="6/C18",
         text="Lean theorems over Model.Txn.runToks (mirror of begin_transaction/autocommit_block/run_migrations in --sql mode) prove the framing grammar for every number of migrations, every body, every (transactional_ddl, per_migration) setting; the model is compared token-for-token with the real MigrationContext on 5 dialects and the Lean recogniser is run on the implementation's own output.",
-        note="version-statement counts and createVT/dropVT flags are parameters read from the implementation run; tokeniser of the output buffer is trusted.",
+        note="version-statement counts and createVT/dropVT flags are parameters read from the implementation run; which dialects have transactional DDL (postgresql, mssql; an explicit transactional_ddl= of the same configure() call overrides) is specification data of the harness, not read from the implementation; also run: the multidb shape (2-3 configure() calls on one EnvironmentContext, mixed dialects) and the override key present with value None; the leak of an explicit earlier override into a later call is known finding C18-F1 (= C04-F1); tokeniser of the output buffer is trusted.",
         technique=T_GENERIC),
     "C19": dict(engine="files", ref="6/C19",
         text="For every abstract filesystem, every list of version-location trees and every sourceless/recursive setting: loaded_once, loaded_sound, ids_right, dup_id (iff), error_loud, map_keys, split; completeness (every expected file is loaded) in _partial form with a kernel-checked counterexample (__init__-prefixed file names: known finding C19-F13) and in full for the repaired look-ahead. Real ScriptDirectory.from_config on materialised scratch trees compared with the model.",
-        note="os.walk/realpath/importlib are the platform's; a file is judged by its realpath name; RootsOk (no version location itself named __pycache__) assumed.",
+        note="os.walk/realpath/importlib are the platform's; a file is judged by its realpath name; RootsOk (no version location itself named __pycache__) assumed; C19.name_rule / isRevFile_name: the file-name regex accepts exactly Spec.Files.isRevName (every .py - sourceless also .pyc/.pyo - name that is neither a .# lock file nor the module __init__), and the real regexes are judged against it name by name.",
         technique=T_GENERIC),
     "C20": dict(engine="filter", ref="6/C20",
         text="Lean theorems over Model.Filter.diffF (compare.py skeleton with every run_name_filters/run_object_filters call site) for all schema pairs and all predicates: object (no leak), name (no leak), conservative_object (list equality), conservative_name (when no reflected name is rejected). Compared with real produce_migrations on SQLite under real callables; Lean checkers on the implementation's ops.",
